@@ -79,6 +79,7 @@ type Case struct {
 	Init  []SRow   `json:"init"`        // settings rows present before the first run
 	InitT []TState `json:"init_tables"` // table state before the first run (absent tables: "<initial>")
 	Runs  []Run    `json:"runs"`
+	Conc  *Conc    `json:"conc,omitempty"` // after the runs: concurrent instances on the same database (conc.go)
 }
 
 // ---------------------------------------------------------------- fake connection
@@ -329,6 +330,17 @@ func runCase(c *Case) {
 	}
 	if c.Init == nil {
 		c.Init = []SRow{}
+	}
+	if c.Runs == nil {
+		c.Runs = []Run{}
+	}
+	if c.Conc != nil {
+		for i := range c.Conc.Cfgs {
+			if c.Conc.Cfgs[i].Days == nil {
+				c.Conc.Cfgs[i].Days = []Policy{}
+			}
+		}
+		runConc(f, c.Conc)
 	}
 }
 
@@ -603,7 +615,11 @@ func main() {
 	// --n is a budget of Rotate runs
 	for runs < f.N {
 		var cs []Case
-		switch x := r.Intn(26); {
+		switch x := r.Intn(30); {
+		case x >= 26:
+			cs = []Case{genConc(r, id)}
+			id++
+			runs += 3
 		case x >= 20:
 			cs = []Case{genGlueSeq(r, id)}
 			id++
